@@ -819,7 +819,7 @@ func (g *replayGen) goClause(e ast.Expr, sig *types.Signature) (string, []string
 		printer.Fprint(&b, token.NewFileSet(), n)
 		return b.String()
 	}
-	specOnly := map[string]bool{"exists": true, "has": true, "same": true, "seqlen": true, "seqat": true, "ite": true, "called": true, "ncalled": true, "held": true,
+	specOnly := map[string]bool{"exists": true, "has": true, "same": true, "seqlen": true, "seqat": true, "ite": true, "called": true, "ncalled": true, "inloop": true, "held": true,
 		"fresh": true, "remaining": true, "jsonof": true, "rankof": true, "trig": true, "indexof": true, "hasprefix": true}
 	rw = func(n ast.Expr) ast.Expr {
 		switch x := n.(type) {
